@@ -68,15 +68,20 @@ Creates(blk, op) ==
 \* at or after the request's start height if the scanned chain contains one;
 \* otherwise the output itself if the start block creates it; otherwise an
 \* empty report" - the scanned chain being heights start..b.
-Fate(op, start, chain, b) ==
+\* gone: heights whose block the environment itself declared reorganised
+\* out of the chain (see `stale` below); {} for the chain as it is.
+FateEx(op, start, chain, b, gone) ==
   LET top == IF b < Len(chain) THEN b ELSE Len(chain)
-      S   == { x \in Positions(chain, start, top) : chain[x[1]][x[2]].ins[x[3]] = op }
+      S   == { x \in Positions(chain, start, top) :
+                 x[1] \notin gone /\ chain[x[1]][x[2]].ins[x[3]] = op }
   IN  IF S # {}
       THEN LET e == CHOOSE x \in S : \A y \in S : LexLeq(x, y)
            IN  <<K_SPEND, e[1], chain[e[1]][e[2]].id, e[3] - 1>>
       ELSE IF start >= 1 /\ start <= top /\ Creates(chain[start], op)
       THEN <<K_UTXO, start, op[1], op[2]>>
       ELSE <<K_EMPTY, 0, 0, 0>>
+
+Fate(op, start, chain, b) == FateEx(op, start, chain, b, {})
 
 \* Is answer x the fate f?  For the unspent output only its identity is
 \* compared (the statement says "the output itself").
@@ -109,20 +114,31 @@ NewAns(o, o2, i) ==
 \* and is still unanswered has been passed over with nothing changed in
 \* between that could make a third scan different: that is the finite
 \* witness of "left waiting" used here (besides quiescence).
-AbsInit == [quit |-> FALSE, due |-> {}, over |-> {}]
+\* `stale`: heights for which the environment answered the filter fetch
+\* with "this block is not in the chain any more" (headerfs.ErrHashNotFound
+\* from GetCFilter; act FilterMatch, res "stale").  The environment of this
+\* family never reorganises, so such an answer contradicts the blocks it
+\* serves: for a request answered after it, the scanned chain is the chain
+\* with or without each of those blocks - either reading is accepted.  With
+\* no such answer in the trace (stale = {}) nothing changes.  A filter fetch
+\* that FAILS (res "fail") says nothing about the chain: the block stays.
+AbsInit == [quit |-> FALSE, due |-> {}, over |-> {}, stale |-> {}]
 
 AbsNext(a, act, o2) ==
   [quit |-> a.quit \/ act.op = "Stop",
    due  |-> IF act.op \in BmOps /\ o2.pc = PC_BEST0
             THEN 1..Len(o2.reqs) ELSE a.due,
    over |-> IF act.op = "Tail" /\ act.res = "done"
-            THEN a.due \cap Unanswered(o2) ELSE a.over]
+            THEN a.due \cap Unanswered(o2) ELSE a.over,
+   stale |-> IF act.op = "FilterMatch" /\ act.res = "stale"
+             THEN a.stale \cup {act.a} ELSE a.stale]
 
 Legal(x, r, act, a2, o2) ==
   CASE x[1] = K_SHUT -> a2.quit                       \* "or the client shuts down"
     [] x[1] = K_ERR  -> act.op \in BmOps /\ act.res = "fail"   \* "the scan cannot complete"
     [] x[1] \in {K_SPEND, K_UTXO, K_EMPTY} ->
-         Same(x, Fate(<<r.tx, r.idx>>, r.start, ChainTable[o2.cid], o2.best))
+         \E gone \in SUBSET a2.stale :
+            Same(x, FateEx(<<r.tx, r.idx>>, r.start, ChainTable[o2.cid], o2.best, gone))
     [] OTHER -> FALSE
 
 Viol(a, o, act, a2, o2) ==
